@@ -15,6 +15,19 @@ VERIF = os.path.dirname(os.path.dirname(os.path.abspath(__file__)))
 
 def run_for_kernels(kernels, repo):
     spec = json.load(open(os.path.join(VERIF, 'contracts', 'mutants.json')))
+    # a kernel that includes another overlay re-verifies its functions too, so its mutants count as well
+    kernels = set(kernels)
+    grew = True
+    while grew:
+        grew = False
+        for k in list(kernels):
+            ov = os.path.join(VERIF, 'contracts', 'verus', k + '.v.rs')
+            for ln in open(ov, encoding='utf-8') if os.path.exists(ov) else []:
+                if ln.startswith('//@ include '):
+                    inc = ln.split()[2].replace('.v.rs', '')
+                    if inc not in kernels:
+                        kernels.add(inc)
+                        grew = True
     todo = [m for m in spec['mutants'] if m['kernel'] in kernels]
     base = tempfile.mkdtemp(prefix='asca-verif-mut-')
     results = []
